@@ -75,6 +75,11 @@ func (ds *Storage) readBlobs(ctx context.Context, opts readBlobRequest) error {
 		f := newFuture(func() (os.FileInfo, error) {
 			fi, err := ds.fs.Stat(fullFile)
 			if err != nil {
+				if os.IsNotExist(err) {
+					// Removed (or, for a temp file, renamed) since
+					// the directory was listed: nothing to list.
+					return nil, nil
+				}
 				return nil, &enumerateError{"stat", err}
 			}
 			return fi, nil
@@ -109,6 +114,9 @@ func (ds *Storage) readBlobs(ctx context.Context, opts readBlobRequest) error {
 			if err != nil {
 				return err
 			}
+			if fi == nil {
+				continue // gone
+			}
 			isDir = fi.IsDir()
 		}
 
@@ -141,6 +149,9 @@ func (ds *Storage) readBlobs(ctx context.Context, opts readBlobRequest) error {
 		fi, err := stat[name].Get()
 		if err != nil {
 			return err
+		}
+		if fi == nil {
+			continue // gone
 		}
 
 		if !fi.IsDir() {
